@@ -216,6 +216,51 @@ def ties_at_non_dyadic_strike(ctx: Ctx) -> None:
                               {"observed": got.tolist(), "dtype": str(got.dtype), "paths": paths.tolist()})
 
 
+def variance_swap_units(ctx: Ctx) -> None:
+    """The variance swap pays the ANNUALISED mean squared LOG-RETURN minus the strike: (i) log-returns do not depend on the unit
+    the price is quoted in - the same lattice paths scaled by 2^-60 (float64; below machine epsilon) or 2^-30 (float32) and by
+    2^40 pay the same; (ii) the step size may be a Python number, a 0-dim tensor or one value per path (the result has one
+    entry per path and each path is annualised by its own step)."""
+    import math
+    import pfhedge.nn.functional as F
+    from pfhedge.instruments import BrownianStock, VarianceSwap
+    LN2 = math.log(2.0)
+    ks = [[0, 1, 0, 2, 1], [0, 0, 0, 0, 0], [0, -1, -2, -1, -3], [0, 2, 4, 2, 0], [1, 0, 1, 0, 1], [3, 3, 2, 2, 2]]           # log2 of the prices
+    base = torch.tensor(ks, dtype=torch.float64)
+    sq = (base.diff(dim=-1) * LN2).square().mean(-1)                                                                            # mean squared log-return
+    for dtype, shifts, tol in ((torch.float64, (0, -60, 40, -200), 1e-12), (torch.float32, (0, -30, 40), 2e-5)):
+        for sh in shifts:
+            paths = torch.exp2(base + sh).to(dtype)
+            for dt in (0.25, 1 / 250):
+                want = (sq / dt - 0.04).to(dtype)
+                stock = BrownianStock(dt=dt, dtype=dtype)
+                stock.register_buffer("spot", paths.clone())
+                outs = {"realized_variance - strike": F.realized_variance(paths.clone(), dt=dt) - 0.04,
+                        "VarianceSwap.payoff()": VarianceSwap(stock, strike=0.04, maturity=4 * dt).payoff()}
+                for how, got in outs.items():
+                    ctx.count(n=len(ks))
+                    if got.shape != want.shape or not bool(((got - want).abs() <= tol * (1 + want.abs()) / min(1.0, dt)).all()):
+                        ctx.violation("payoff:variance_swap:price-unit", f"variance swap ({how}) on prices quoted at 2^{sh} times the unit: not the annualised mean squared log-return minus the strike",
+                                      {"log2_scale": sh, "dt": dt, "dtype": str(dtype), "expected": want.tolist(), "observed": got.tolist()})
+    # the step size: Python number, 0-dim tensor, one value per path
+    paths = torch.exp2(base)
+    for N in (6, 4, 3):                                                    # 4 = T - 1: a per-path vector as long as the number of steps
+        p = paths[:N]
+        dts = torch.tensor([0.25, 0.5, 0.125, 1.0, 2.0, 0.0625][:N], dtype=torch.float64)
+        for label, dt, want in (("a 0-dim tensor", torch.tensor(0.25, dtype=torch.float64), sq[:N] / 0.25), ("a one-element tensor", torch.tensor([0.25], dtype=torch.float64), sq[:N] / 0.25),
+                                ("one step size per path", dts, sq[:N] / dts)):
+            ctx.count(n=N)
+            try:
+                got = F.realized_variance(p.clone(), dt=dt)
+                vol = F.realized_volatility(p.clone(), dt=dt)
+            except Exception as e:
+                ctx.violation("payoff:variance_swap:dt-spelling", f"realized_variance raised {type(e).__name__} for dt given as {label} ({N} paths, 5 time points)", {"error": repr(e)[:200]})
+                continue
+            if got.shape != want.shape or not bool(((got - want).abs() <= 1e-12 * (1 + want.abs())).all()) or not bool(((vol - want.sqrt()).abs() <= 1e-12 * (1 + want)).all()):
+                ctx.violation("payoff:variance_swap:dt-spelling", f"realized variance with dt given as {label} ({N} paths, 5 time points) is not the mean squared log-return of each path divided by its step size",
+                              {"expected": want.tolist(), "observed": got.tolist()})
+
+
 def check(ctx: Ctx) -> None:
     with ThreadPoolExecutor(max_workers=6) as ex:
         results = list(ex.map(lambda c: ctx.tlc("MC_Payoff", f"MC_Payoff_{c}.cfg", workers=4), CFGS[ctx.tier]))
@@ -227,6 +272,7 @@ def check(ctx: Ctx) -> None:
         recs += res.records
     replay(ctx, recs)
     ties_at_non_dyadic_strike(ctx)
+    variance_swap_units(ctx)
     # forward-start index over Grid.tla's (dt, k, fraction) menu: start = (k + f) dt  ->  index floor(start/dt) = k
     from pfhedge.instruments import BrownianStock, EuropeanForwardStartOption
     grid = ctx.tlc("MC_Grid", "MC_Grid_q.cfg" if ctx.tier == "quick" else "MC_Grid_t.cfg", workers=4)
